@@ -346,7 +346,25 @@ func (rw *rewriter) file(f *ast.File) {
 			rw.stats.GoStatements++
 			rw.usedVrt = true
 		case *ast.CallExpr:
+			if id, ok := n.Fun.(*ast.Ident); ok && id.Name == "make" && chanModelOn && len(n.Args) >= 1 && len(n.Args) <= 2 {
+				if _, builtin := info.Uses[id].(*types.Builtin); builtin {
+					if ct, ok := n.Args[0].(*ast.ChanType); ok && ct.Dir == ast.SEND|ast.RECV {
+						// make(chan T, n)  =>  vchan.Make[T](n)
+						var size ast.Expr = &ast.BasicLit{Kind: token.INT, Value: "0"}
+						if len(n.Args) == 2 {
+							size = n.Args[1]
+						}
+						c.Replace(&ast.CallExpr{Fun: &ast.IndexExpr{X: &ast.SelectorExpr{X: ast.NewIdent("vchan"), Sel: ast.NewIdent("Make")}, Index: ct.Value}, Args: []ast.Expr{size}})
+						rw.stats.ChanOps++
+						rw.usedVchan = true
+						return true
+					}
+				}
+			}
 			if id, ok := n.Fun.(*ast.Ident); ok && len(n.Args) == 1 {
+				if _, builtin := info.Uses[id].(*types.Builtin); builtin && chanModelOn && id.Name == "make" {
+					// handled below (one or two arguments)
+				}
 				if _, builtin := info.Uses[id].(*types.Builtin); builtin && chanModelOn && (id.Name == "close" || id.Name == "len") {
 					if tv, ok := info.Types[n.Args[0]]; ok {
 						if _, isChan := tv.Type.Underlying().(*types.Chan); isChan {
